@@ -1463,6 +1463,12 @@ func (t *table) gc(now bigtable.Timestamp, done <-chan struct{}, force bool) {
 
 	i := 0
 	t.rows.Ascend(func(r *btpb.Row) bool {
+		// The iteration may run over a snapshot taken before the lock was last
+		// released: always collect the row as it is stored now, so that a write
+		// acknowledged in between is never reverted.
+		if r = t.rows.Get(r.Key); r == nil {
+			r = &btpb.Row{}
+		}
 		changed := false
 		for _, fam := range r.Families {
 			gcRule := rules[fam.Name]
